@@ -81,12 +81,22 @@ def hist(elt, v0, ops, family, nontrivial=True):
                 family=family, nontrivial=nontrivial, tol=TOL, check_class=True)
 
 # ------------------------------------------------------------------ libm pow as a table
+def cpow(x, y):
+    """C's pow as libm returns it (python's math.pow raises where C returns inf / nan)"""
+    try:
+        return math.pow(x, y)
+    except OverflowError:
+        return math.inf if (x > 0 or float(y).is_integer() and int(y) % 2 == 0) else -math.inf
+    except ValueError:
+        if x == 0 and y < 0: return math.inf
+        return math.nan
+
 def powtab_norm_p(v, p, tab):
     acc = 0.0
     for x in v:
-        r = math.pow(abs(x), p); tab.append((abs(x), p, r)); acc = acc + r
+        r = cpow(abs(x), p); tab.append((abs(x), p, r)); acc = acc + r
     ip = 1.0 / p
-    tab.append((acc, ip, math.pow(acc, ip)))
+    tab.append((acc, ip, cpow(acc, ip)))
 
 def coq_tab(tab):
     seen, out = set(), []
@@ -120,7 +130,7 @@ def powspace_case(a, b, n, p, family):
     for i in range(n):
         x = float(i) / (float(n) - 1.0) if n != 1 else (math.nan)
         if n == 1: continue
-        tab.append((x, p, math.pow(x, p)))
+        tab.append((x, p, cpow(x, p)))
     term = "@vec_powspace_out SAF %s flat_f %s %s %d %s" % (coq_tab(tab), hx(a), hx(b), n, hx(p))
     return Case('f64', "vec.powspace %s %s %d %s" % (tok_scalar('f64', a), tok_scalar('f64', b), n, tok_scalar('f64', p)), term,
                 meta={"kind": "powspace", "a": a, "b": b, "n": n, "p": p}, family=family, nontrivial=n > 0, tol=TOL)
@@ -307,7 +317,13 @@ def _conv(elt, x):
 
 def case_from_json(j):
     m = j["meta"]; elt = j["elt"]
-    if m.get("kind", "hist") != "hist":
+    kind = m.get("kind", "hist")
+    F = lambda x: _conv('f64', x)
+    if kind == "norms": return norms_case([F(x) for x in m["v"]], F(m["p"]), "corpus")
+    if kind == "normlaws": return normlaws_case([F(x) for x in m["u"]], [F(x) for x in m["v"]], F(m["c"]), F(m["p"]), "corpus")
+    if kind == "linspace": return linspace_case(F(m["a"]), F(m["b"]), int(m["n"]), "corpus")
+    if kind == "powspace": return powspace_case(F(m["a"]), F(m["b"]), int(m["n"]), F(m["p"]), "corpus")
+    if kind != "hist":
         return None
     v0 = [_conv(elt, x) for x in m["v0"]]
     ops = []
